@@ -494,6 +494,15 @@ func (c *Ctx) roleOf(r ssa.Value, depth int) string {
 		return "…"
 	}
 	switch x := r.(type) {
+	case *ssa.Call:
+		// ast.Unparen(e): the operand with its parentheses stripped
+		if c.P.calleeName(x.Common()) == "go/ast.Unparen" && len(x.Call.Args) == 1 {
+			inner := "?"
+			if rs := c.P.Resolve(x.Call.Args[0]); len(rs) == 1 {
+				inner = c.roleOf(rs[0], depth+1)
+			}
+			return "unparen(" + inner + ")"
+		}
 	case *ssa.Parameter:
 		if closureLike(x.Parent()) {
 			return "node"
